@@ -120,6 +120,11 @@ class Plugin:
             base = rng.choice(["HOST", "CACHE-CONTROL", "LOCATION", "SERVER", "NT", "NTS", "USN", "ST", "MAN", "MX", "EXT", "DATE",
                                "BOOTID.UPNP.ORG", "CONFIGID.UPNP.ORG", "X-" + "".join(rng.choice("abcXYZ09" + TOKEN_EXTRA) for _ in range(rng.randint(1, 6)))])
             name = rng.choice([base, base.lower(), base.title(), base])
+            if rng.random() < 0.04:
+                # a header that spells one of the receiver's own metadata names (outside the statement's header maps: only
+                # model and implementation are compared - the metadata derived from the source address must win)
+                name = rng.choice(["_Port", "_PORT", "_Remote_Addr", "_TIMESTAMP", "_Local_Addr", "_Host", "_UDN", "_Location_Original",
+                                   "_port", "_host", "_udn"])
             if name.lower() not in used:
                 used.add(name.lower())
                 return name
